@@ -265,11 +265,22 @@ func TestTwoSessionsOneConnection(t *testing.T) {
 		w := hx.NewWorldFor(a, true)
 		w.BMC.Users[b.User] = b.Password
 		ctx := context.Background()
-		sa, err := w.T.NewV2Session(ctx, a.Opts())
+		// one options value serves both establishments (the caller changes user,
+		// password and suite in it between the two), as a fleet scraper would
+		o := a.Opts()
+		before := *o
+		before.Password, before.KG = append([]byte(nil), o.Password...), append([]byte(nil), o.KG...)
+		sa, err := w.T.NewV2Session(ctx, o)
 		if err != nil {
 			t.Fatalf("session A: %v", err)
 		}
-		sb, err := w.T.NewV2Session(ctx, b.Opts())
+		if o.Username != before.Username || !bytes.Equal(o.Password, before.Password) || (o.KG == nil) != (a.KG == nil) || !bytes.Equal(o.KG, before.KG) ||
+			o.MaxPrivilegeLevel != before.MaxPrivilegeLevel || o.PrivilegeLevelLookup != before.PrivilegeLevelLookup || len(o.CipherSuites) != len(before.CipherSuites) {
+			t.Fatalf("NewV2Session modified the caller's options: before %+v after %+v", before, *o)
+		}
+		ob := b.Opts()
+		o.Username, o.Password, o.MaxPrivilegeLevel, o.PrivilegeLevelLookup, o.CipherSuites = ob.Username, ob.Password, ob.MaxPrivilegeLevel, ob.PrivilegeLevelLookup, ob.CipherSuites
+		sb, err := w.T.NewV2Session(ctx, o)
 		if err != nil {
 			t.Fatalf("session B on the same connection: %v; BMC: %v", err, w.BMC.AllProblems())
 		}
